@@ -122,6 +122,7 @@ Inductive pyval :=
   | PyHasFloat (bits : Z)       (* object whose __float__ returns that float *)
   | PyInt (n : Z)
   | PyComplex (re im : Z)       (* complex, two binary64 patterns *)
+  | PyHasComplex (re im : Z)    (* object whose __complex__ returns that complex (and no __float__) *)
   | PyBytes (bs : list Z)
   | PyStr (cps : list Z)
   | PyOther.                    (* None, list, ... *)
@@ -141,7 +142,7 @@ Definition pos_zero : Z := 0.
 
 Definition PyComplex_AsCComplex (v : pyval) : result (Z * Z) :=
   match v with
-  | PyComplex re im => Ok (re, im)
+  | PyComplex re im | PyHasComplex re im => Ok (re, im)
   | _ => match PyFloat_AsDouble v with Ok b => Ok (b, pos_zero) | Err e => Err e end
   end.
 
